@@ -128,11 +128,10 @@ Definition eval_condition (m : mode) (U : user) (r : role) (corofn_first : bool)
 Definition create_violation_error (U : user) (r : role) (c : contract) (resolved : dict) : M exn :=
   let reeval : M unit :=
       (* the violated lambda is re-evaluated to build the message; a parameter the call does not
-         provide, or one bound to None (the re-evaluator's "unknown" marker), makes the
-         re-evaluator skip the enclosing call *)
+         provide is unknown to the re-evaluator, which then skips the enclosing call *)
       if clambda c
          && forallb (fun a => match dict_get resolved a with
-                              | Some PNone | None => false
+                              | None => false
                               | Some _ => true
                               end) (cargs c)
       then match select (cargs c) (cmandatory c) resolved with
